@@ -596,11 +596,15 @@ fn generate_key_id(
     dbs: &Arc<Databases>,
     invalidate_stream: &mut BufWriter<File>,
 ) -> u64 {
+    #[cfg(feature = "verif")]
+    crate::verif::yield_point("generate_key_id.keys.read");
     let keys_map = { dbs.keys_map.read().unwrap().clone() };
     if keys_map.contains_key(&key) {
         *keys_map.get(&key).unwrap()
     } else {
         let id = keys_map.len() as u64;
+        #[cfg(feature = "verif")]
+        crate::verif::yield_point("generate_key_id.keys.write");
         let mut keys_map = { dbs.keys_map.write().unwrap() };
         let mut id_keys_map = { dbs.id_keys_map.write().unwrap() };
         keys_map.insert(key.clone(), id);
